@@ -51,7 +51,8 @@ def present(jobs, variant, seed_material):
     out = []
     for pos, ji in enumerate(idx):
         evs = P.pv_events(jobs[ji], pos, "wf", rnd=rnd if ("rename" in kinds or "perm" in kinds) else None,
-                          idprefix="r" if "rename" in kinds else "", t0=(rnd.randrange(3000) if "rename" in kinds else 0))
+                          idprefix="r" if "rename" in kinds else "", t0=(rnd.randrange(3000) if "rename" in kinds else 0),
+                          local_ids="local" in kinds)
         out.append(evs)
     return out
 
@@ -68,10 +69,12 @@ VARIANTS = {
     7: (("perm",), 4242, 5),
     8: ((), 2, 6),
     9: (("perm",), 3, 7),
+    10: (("local",), 0, 1),
+    11: (("perm", "local", "dup"), 2, 6),
 }
 for _k, _v in list(VARIANTS.items()):
     VARIANTS[_k] = _v[0]
-VARIANT_ENV = {0: (0, 1), 1: (0, 1), 2: (0, 1), 3: (0, 1), 4: (1, 2), 5: (12345, 3), 6: (777, 4), 7: (4242, 5), 8: (2, 6), 9: (3, 7)}
+VARIANT_ENV = {0: (0, 1), 1: (0, 1), 2: (0, 1), 3: (0, 1), 4: (1, 2), 5: (12345, 3), 6: (777, 4), 7: (4242, 5), 8: (2, 6), 9: (3, 7), 10: (0, 1), 11: (2, 6)}
 
 
 def learn(items):
